@@ -120,9 +120,13 @@ type Result struct {
 }
 
 // KeyOf renders the lock key of a receiver expression, or "" when it is not understood.
+// Alias, when set, maps a local variable that is nothing but another name (`lock := &s.mu`, `dest := destination`:
+// one definition, never written again) to the expression it stands for.
+var Alias func(o types.Object) ast.Expr
+
 func KeyOf(info *types.Info, e ast.Expr) string {
 	var path []string
-	for {
+	for hops := 0; ; {
 		switch x := e.(type) {
 		case *ast.ParenExpr:
 			e = x.X
@@ -143,6 +147,13 @@ func KeyOf(info *types.Info, e ast.Expr) string {
 			}
 			if o == nil {
 				return ""
+			}
+			if Alias != nil && hops < 4 && info.Defs[x] == nil {
+				if a := Alias(o); a != nil {
+					hops++
+					e = a
+					continue
+				}
 			}
 			k := fmt.Sprintf("%s@%d", x.Name, o.Pos())
 			if len(path) > 0 {
